@@ -423,6 +423,50 @@ def status_sat(op, const, value):
     return {">=": a >= b, ">": a > b, "<=": a <= b, "<": a < b, "==": a == b, "!=": a != b}[op]
 
 
+def check_status_order(db):
+    """every rule that evaluates a status comparison relies on the declaration order of ActorStatus and on its *derived*
+    ordering (by discriminant).  Returns (ok, why)."""
+    a = db.adts.get(STATUS)
+    if a is None:
+        return True, "crate without ActorStatus"
+    names = [v["name"] for v in a["variants"]]
+    if names != STATUS_ORDER:
+        return False, "ActorStatus variants are %s, the rules assume %s" % (names, STATUS_ORDER)
+    for nm in ("partial_cmp",):
+        f = db.fns.get("<%s as std::cmp::PartialOrd>::%s" % (STATUS, nm))
+        if f is None:
+            return False, "no PartialOrd::partial_cmp body for ActorStatus"
+        cs = f.calls()
+        dv = [c for c in cs if c.matches(r"intrinsics::discriminant_value$")]
+        if len(dv) != 2 or f.switches() or len(cs) != 3:
+            return False, "ActorStatus's ordering is not the derived discriminant order (hand-written partial_cmp)"
+    return True, "ActorStatus = %s, ordered by discriminant" % names
+
+
+def status_gates_at(fn, site, fresh_only=True, subject=None):
+    """status comparisons one of whose edges dominates `site`: list of (test, polarity).
+    subject: optional predicate on the test (e.g. 'reads parameter 2')"""
+    out = []
+    for s in status_tests(fn):
+        if subject is not None:
+            if not subject(s):
+                continue
+        elif fresh_only and not any(r["k"] == "call" and r["call"].is_("get_status") for r in s["subject"]):
+            continue
+        for edge, pol in ((s["true_edge"], True), (s["false_edge"], False)):
+            if edge and fn.edge_dominates(edge, site):
+                out.append((s, pol))
+    return out
+
+
+def admitted_statuses(gates):
+    return [v for v in STATUS_ORDER if all(status_sat(s["op"], s["const"], v) == pol for s, pol in gates)]
+
+
+def show_gates(gates):
+    return ["status %s %s is %s" % (s["op"], s["const"], str(pol).lower()) for s, pol in gates]
+
+
 def set_status_calls(fn):
     """calls to set_status with the constant passed: list of (Call, variant name or None)"""
     out = []
